@@ -5,6 +5,7 @@ import (
 	"fmt"
 
 	schema "github.com/jsightapi/jsight-schema-core"
+	"github.com/jsightapi/jsight-schema-core/bytes"
 	"github.com/jsightapi/jsight-schema-core/errs"
 	"github.com/jsightapi/jsight-schema-core/kit"
 	"github.com/jsightapi/jsight-schema-core/notations/jschema"
@@ -27,6 +28,11 @@ func (core *JApiCore) collectRawUserTypes() *jerr.JApiError {
 	for _, d := range core.directivesWithPastes {
 		if d.Type() == directive.Type {
 			name := d.NamedParameter("Name")
+			if name != "" && !bytes.NewBytes(name).IsUserTypeName() {
+				// "[@a]" is read as a parameter of the directive, but it is the
+				// name of nothing.
+				return d.KeywordError(fmt.Sprintf("%s (%s) %q", jerr.IncorrectParameter, "Name", name))
+			}
 			if core.rawUserTypes.Has(name) {
 				return d.KeywordError(fmt.Sprintf(jerr.DuplicateNames, name))
 			}
